@@ -209,6 +209,48 @@ Resolved = Union[FunctionInfo, ClassInfo, Module, Ext, Tuple[str, Module, str], 
 # ----------------------------------------------------------------------------- program
 
 
+def _typeddict_constructors(parsed) -> None:
+    """`SegmentsDict()` / `JSONSignatureDict(signature=s)` where the name is a TypedDict of the package: calling a TypedDict builds the plain dict of its
+    keyword arguments - `{}` / `{"signature": s}`."""
+    names = set()
+    for _name, _path, _src, tree, _k in parsed:
+        for st in ast.walk(tree):
+            if isinstance(st, ast.ClassDef) and any((isinstance(b, ast.Name) and b.id == "TypedDict") or (isinstance(b, ast.Attribute) and b.attr == "TypedDict") for b in st.bases):
+                names.add(st.name)
+            elif isinstance(st, ast.Assign) and len(st.targets) == 1 and isinstance(st.targets[0], ast.Name) and isinstance(st.value, ast.Call):
+                f = st.value.func
+                if (isinstance(f, ast.Name) and f.id == "TypedDict") or (isinstance(f, ast.Attribute) and f.attr == "TypedDict"):
+                    names.add(st.targets[0].id)
+    if not names:
+        return
+    for _name, _path, _src, tree, _k in parsed:
+        bound = set()
+        for st in tree.body:
+            if isinstance(st, ast.ImportFrom):
+                bound |= {a.asname or a.name for a in st.names if a.name in names and (a.asname or a.name) == a.name}
+            elif isinstance(st, ast.ClassDef) and st.name in names:
+                bound.add(st.name)
+            elif isinstance(st, ast.Assign) and len(st.targets) == 1 and isinstance(st.targets[0], ast.Name) and st.targets[0].id in names:
+                bound.add(st.targets[0].id)
+        if not bound:
+            continue
+
+        class T(ast.NodeTransformer):
+            def visit_Call(self, n: ast.Call):
+                self.generic_visit(n)
+                if isinstance(n.func, ast.Name) and n.func.id in bound and not n.args and all(k.arg is not None for k in n.keywords):
+                    d = ast.Dict(keys=[ast.Constant(value=k.arg) for k in n.keywords], values=[k.value for k in n.keywords])
+                    return ast.copy_location(d, n)
+                return n
+        for fn in ast.walk(tree):
+            if isinstance(fn, (ast.FunctionDef, ast.AsyncFunctionDef)):
+                local = {x.id for x in ast.walk(fn) if isinstance(x, ast.Name) and isinstance(x.ctx, (ast.Store, ast.Del))} | {a.arg for a in ast.walk(fn.args) if isinstance(a, ast.arg)}
+                if local & bound:
+                    continue
+                T().visit(fn)
+        ast.fix_missing_locations(tree)
+
+
 def _expand_private_contextmanagers(parsed) -> None:
     """`with _cm(a, b) [as v]: BODY` where `_cm` is a new private generator decorated with `contextlib.contextmanager` that yields exactly once, as a
     statement: the generator's body with BODY at the place of the `yield` (and `v` bound to the yielded value) - which is how the decorator runs
@@ -849,6 +891,7 @@ class Program:
         _push_down_new_bases(parsed)
         _expand_private_decorators(parsed)
         _expand_private_contextmanagers(parsed)
+        _typeddict_constructors(parsed)
         # method names defined in more than one class anywhere in the package cannot be resolved through `self` by the inliner
         counts: Dict[str, int] = {}
         for _n, _p, _s, tree, _k in parsed:
